@@ -28,6 +28,9 @@ SUFFIX_MACRO = [("_keygen", ["_KEYBYTES"]), ("_keypair", ["_SECRETKEYBYTES"]), (
                 ("_str", ["_SALTBYTES", "_STRSALTBYTES"])]
 
 
+ALSO_PORTABLE = True
+
+
 def run(ctx, chk):
     prog = ctx.prog()
     cg = prog.callgraph()
